@@ -20,6 +20,14 @@ def cell_tree(c):
     return {'b': bitarray(c.bits).tolist(), 'r': [cell_tree(x) for x in c.refs]}
 
 
+def cell_tree_t(c):
+    """cell tree that also carries the exotic cell type (t) where there is one (for the specification's decoder)"""
+    t = {'b': bitarray(c.bits).tolist(), 'r': [cell_tree_t(x) for x in c.refs]}
+    if c.type_ != -1:
+        t['t'] = c.type_
+    return t
+
+
 # names the library uses where block.tlb uses another one; '' = the library flattens this level into its parent
 ALIAS = {
     'seq_no': ['seq_no', 'seqno'], 'rest': [''], 'a': [''], 'b': [''], 'state_init': ['state_init', ''],
@@ -44,6 +52,8 @@ def get_attr(cur, name):
 def norm(kind, expected, val):
     """library value -> abstract leaf value in the shape of `expected` (only representation, never content)"""
     if kind == 'None':
+        return {'none': 1} if val is None else {'present': 1}
+    if kind == 'Present':
         return {'none': 1} if val is None else {'present': 1}
     if kind == 'Count':
         if val is None:
@@ -132,6 +142,8 @@ def walk(obj, path, cursors, ty=None):
             c = cursors[pre]
             if name == '#key' and i == len(path) - 1:
                 c[2] += 1
+                for k2 in [k2 for k2 in cursors if len(k2) > len(pre) and k2[:len(pre)] == pre]:
+                    del cursors[k2]          # dictionaries nested in the previous entry's value are other objects
             if c[2] >= len(c[1]):
                 return False, None
             if name == '#key':
@@ -179,7 +191,9 @@ def observe(obj, flat, ty=None):
             out.append({'skip': 1} if cur is KeyHidden else {'int': big(int(cur))})
         elif kind == 'AugExtras':
             ex = cur[1] if isinstance(cur, tuple) and len(cur) == 2 else None
-            if not isinstance(ex, list):
+            if isinstance(cur, tuple) and len(cur) == 2 and cur[0] == {}:
+                out.append({'skip': 1})      # empty HashmapAugE: the library hands back the unparsed root extra, nothing to compare
+            elif not isinstance(ex, list):
                 out.append({'unexpected': type(cur).__name__})
             else:
                 want = leaf['a']['extras']
